@@ -19,7 +19,7 @@ def make_inputs(tier, seed, wd):
     for i in range(n):
         r = gen.seeded(seed, 'C18in', i)
         pre = gen.gen_preamble(r, nbps=r.choice([1, 1, 2, 3]))
-        ver = r.choice([(1, 0, 1), (1, 0, 1), (1, 0, 1), (1, 0, None), (1, 1, 1), (1, 0, 2), (2, 0, 1)])
+        ver = r.choice([(1, 0, 1), (1, 0, 1), (1, 0, 1), (1, 0, None), (1, 0, None), (1, 0, 0), (1, 0, 0), (1, 1, 1), (1, 0, 2), (2, 0, 1)])
         pre['major'], pre['minor'], pre['private'] = ver
         for bp in pre['bps']:
             bp['max'] = r.choice([1, 2, 5, 10000])
@@ -206,6 +206,14 @@ def make_tuples(tier, seed, inputs, wd):
             og = [x for x in inputs if x.get('case_no') == sb['sib_of'] and not x.get('reencoded')]
             if og and og[0]['version'] == sb['version']:
                 members = [og[0], sb] if r.random() < 0.5 else [sb, og[0]]
+        if i % 8 == 5:
+            # versions that differ only in "private version absent" vs "private version 0" (both orders)
+            va = [x for x in inputs if x['version'] == (1, 0, None)]
+            vb = [x for x in inputs if x['version'] == (1, 0, 0)]
+            if va and vb:
+                members = [r.choice(va), r.choice(vb)]
+                if r.random() < 0.5:
+                    members.reverse()
         for j in range(k - len(members)):
             x = r.random()
             if x < 0.62:
